@@ -88,6 +88,11 @@ class Grid(col.MutableSequence):
                 return False
             return v1.replace(microsecond=0) == v2.replace(microsecond=0)
         elif isinstance(v1, Quantity) or isinstance(v2, Quantity):
+            # A quantity without unit is a plain number (and is written as one)
+            if isinstance(v1, Quantity) and not v1.unit:
+                return Grid._approx_check(v1.value, v2)
+            if isinstance(v2, Quantity) and not v2.unit:
+                return Grid._approx_check(v1, v2.value)
             if not (isinstance(v1, Quantity) and isinstance(v2, Quantity)):
                 return False
             return v1.unit == v2.unit and \
@@ -110,6 +115,21 @@ class Grid(col.MutableSequence):
                 # NaN: a faithful copy holds NaN in the same place
                 return (v1 != v1) and (v2 != v2)
             return (v1 == v2) or (abs(v1 - v2) < 0.000001)
+        elif isinstance(v1, list) or isinstance(v2, list):
+            # Collections: the same rules apply to what they hold
+            if not (isinstance(v1, list) and isinstance(v2, list)) \
+                    or (len(v1) != len(v2)):
+                return False
+            return all([Grid._approx_check(e1, e2)
+                        for (e1, e2) in zip(v1, v2)])
+        elif isinstance(v1, (dict, SortableDict)) \
+                or isinstance(v2, (dict, SortableDict)):
+            if not (isinstance(v1, (dict, SortableDict)) \
+                    and isinstance(v2, (dict, SortableDict))) \
+                    or (set(v1.keys()) != set(v2.keys())):
+                return False
+            return all([Grid._approx_check(v1[key], v2[key])
+                        for key in v1.keys()])
         else:
             return v1 == v2
 
